@@ -57,6 +57,11 @@ def one_scenario(ctx, base, entry, rng, tier, stats, manual=True):
             plans.append({"kind": "hook", "hook": h, "at": i, "exc": rng.choice(EXCS)})
         for x in (rng.sample(EXCS, 2) if tier == "quick" else EXCS):
             plans.append({"kind": "hook", "hook": h, "at": "always", "exc": x})
+    if base["place"].get("before_sleep") == "both" and total.get("before_sleep"):
+        # a before_sleep hook at policy level AND one passed to the call: two objects; only one of them fails
+        for pl in ("policy", "call"):
+            for i in [0, 1, "always"]:
+                plans.append({"kind": "hook", "hook": "before_sleep", "at": i, "exc": rng.choice(EXCS), "place": pl})
     if entry.startswith("a") and base.get("bs_kind") == "async" and total.get("before_sleep"):
         # an `async def` hook whose CALL raises (argument binding), at each invocation
         nbs = total["before_sleep"]
@@ -97,6 +102,11 @@ def one_scenario(ctx, base, entry, rng, tier, stats, manual=True):
                 others.append(("log", O.project(v, keep=("log",), strip_place=False), base_log[k]))
             if f["hook"] != "before_sleep":
                 others.append(("before_sleep", O.project(v, keep=("before_sleep",), strip_place=False), base_bs[k]))
+            elif f.get("place"):
+                # the hook configured at the other level is "the other hook": it still receives what it receives in the silent run
+                ctx.inc("two_level_before_sleep_comparisons")
+                others.append(("before_sleep@" + ("call" if f["place"] == "policy" else "policy"), [e for e in O.project(v, keep=("before_sleep",), strip_place=False) if e[1] != f["place"]],
+                               [e for e in base_bs[k] if e[1] != f["place"]]))
             tl = timeline_of(rec)
             if base_tl[k] is not None:
                 others.append(("timeline", tl, base_tl[k]))
